@@ -47,6 +47,37 @@ def _sizingset_binop(ip, st, op, a, b):
 PROTOCOLS["SizingSet"].binop = _sizingset_binop
 
 
+def _xcheck_sizing_and():
+    """CPython cross-check of the `&` model: for all sets A, B of Sizing members, x in (A & B) iff x in A and x in B,
+    and bool(A & B) iff some member is in both."""
+    import itertools
+
+    subsets = [frozenset(c) for r in range(4) for c in itertools.combinations(SIZING_MEMBERS, r)]
+    bad = [(a, b) for a in subsets for b in subsets
+           if any((x in (a & b)) != (x in a and x in b) for x in SIZING_MEMBERS) or bool(a & b) != any(x in a and x in b for x in SIZING_MEMBERS)]
+    return "sizing-set-intersection-model-matches-cpython", not bad, f"{len(subsets) ** 2} pairs of sets, mismatches: {bad[:3]}"
+
+
+def _xcheck_sorted():
+    """CPython cross-check of the sorted() model (pyvc.builtins_model.sorted_model_holds): every list of up to 4
+    (weight, index) pairs over {0,1,2}^2 and every list of up to 5 ints over {0..3}."""
+    import itertools
+
+    from pyvc.builtins_model import sorted_model_holds
+
+    cnt, bad = 0, []
+    pairs = [(w, i) for w in range(3) for i in range(3)]
+    for universe, maxlen in ((pairs, 4), (list(range(4)), 5)):
+        for n in range(maxlen + 1):
+            for xs in itertools.product(universe, repeat=n):
+                inp = list(xs)
+                perm = sorted(range(n), key=lambda q, inp=inp: inp[q])
+                cnt += 1
+                if not sorted_model_holds(inp, sorted(inp), perm):
+                    bad.append(inp)
+    return "sorted-model-matches-cpython", not bad, f"{cnt} lists, mismatches: {bad[:3]}"
+
+
 # ---------------------------------------------------------------------------------- spec functions
 #
 # For a Columns `c`, an available width `maxcol` and the focus flag (all fixed during one call):
@@ -54,6 +85,9 @@ PROTOCOLS["SizingSet"].binop = _sizingset_binop
 #             child's sizing() and pack() answers (protocol: 0 <= pack()[0] < 2^22); weight -> min_width
 #   SS(k)   = sum of own(j) for j < k                       (recursive definition, instantiated groundly)
 #   NW(k)   = number of weighted columns j < k              (recursive definition, instantiated groundly)
+#   MUL(x, k) = k * x as repeated addition: MUL(x, 0) = 0, MUL(x, k+1) = MUL(x, k) + x (recursive definition,
+#             instantiated groundly; keeps the loop obligations linear).  Its closed form k * x is the lemma
+#             `repeated-addition-closed-form` below, instantiated where a product appears in the code or a clause.
 #   room(m, j) = maxcol - (own widths of columns j..m-1 plus the dividers between them)
 #              = maxcol + d - (SS(m) - SS(j)) - (m - j) * d
 #   KD(m)   = the number of columns dropped on the left when m columns were kept on the right:
@@ -61,11 +95,43 @@ PROTOCOLS["SizingSet"].binop = _sizingset_binop
 
 _SS = z3.Function("colw$SS", z3.IntSort(), z3.BoolSort(), z3.IntSort(), z3.IntSort())
 _NW = z3.Function("colw$NW", z3.IntSort(), z3.IntSort())
+_MUL = z3.Function("colw$MUL", z3.IntSort(), z3.IntSort(), z3.IntSort())
 _KD = z3.Function("colw$KD", z3.IntSort(), z3.BoolSort(), z3.IntSort(), z3.IntSort())
 
 
 def ival(x):
     return x.val if isinstance(x, SOpt) else x
+
+
+def MUL(x, k):
+    cur().assume(_MUL(V._z(x), z3.IntVal(0)) == 0)
+    return mk_int(_MUL(V._z(x), V._z(k)))
+
+
+def mul_unfold(x, k):
+    cur().assume(implies(k >= 0, MUL(x, k + 1) == MUL(x, k) + x))
+
+
+def mul_closed(x, k):
+    """Lemma repeated-addition-closed-form, instantiated."""
+    cur().assume(implies(k >= 0, MUL(x, k) == k * x))
+
+
+def opt_ok(s, j):
+    """Options of column j as Columns.options() produces them: ('pack', None, b), ('given', g >= 0, b),
+    ('weight', w >= 1, b) with an integer weight."""
+    w, (t, amt, b) = item_at(s, j)
+    return both(
+        implies(t == "pack", mk_bool(amt.isnone)),
+        implies(t == "given", both(neg(mk_bool(amt.isnone)), amt.val >= 0, amt.val < PARTMAX)),
+        implies(t == "weight", both(neg(mk_bool(amt.isnone)), amt.val >= 1, amt.val < WMAX)),
+    )
+
+
+def colw_wf(s):
+    """Well-formed options; bounds for the float-as-rational reading of the rounding idiom."""
+    n = n_items(s)
+    return both(pile_ri(s), forall(0, n, lambda j: opt_ok(s, j)), n < NMAX, 0 <= s.dividechars, s.dividechars < PARTMAX, 0 <= s.min_width, s.min_width < MWMAX)
 
 
 class Spec:
@@ -109,8 +175,12 @@ class Spec:
     def NW(self, k):
         return mk_int(_NW(V._z(k)))
 
+    def DV(self, k):
+        return MUL(self.d, k)
+
     def unfold(self, j):
-        """Definitional axioms of SS / NW at index j (0 <= j < n)."""
+        """Definitional axioms of SS / NW / MUL(d, .) at index j (0 <= j < n), and the requires' fact about
+        column j's options (an instance of the quantified precondition)."""
         st = cur()
         zj = V._z(j)
         ok = z3.And(zj >= 0, zj < V._z(self.n))
@@ -118,18 +188,21 @@ class Spec:
         st.assume(self.NW(0) == 0)
         st.assume(z3.Implies(ok, V._zb(self.SS(j + 1) == self.SS(j) + self.own(j))))
         st.assume(z3.Implies(ok, V._zb(self.NW(j + 1) == self.NW(j) + ite(self.isw(j), 1, 0))))
+        st.assume(z3.Implies(ok, V._zb(opt_ok(self.c, j))))
+        mul_unfold(self.d, j)
 
     def mono(self, a, b):
-        """Lemma prefix-sum-monotone (C19_containers), instantiated: SS and NW are prefix sums of non-negative terms."""
+        """Lemma prefix-sum-monotone (C19_containers), instantiated: SS, NW and MUL(d, .) are prefix sums of
+        non-negative terms."""
         ok = both(0 <= a, a <= b, b <= self.n)
-        cur().assume(implies(ok, both(self.SS(a) <= self.SS(b), self.NW(a) <= self.NW(b))))
+        cur().assume(implies(ok, both(self.SS(a) <= self.SS(b), self.NW(a) <= self.NW(b), self.DV(a) <= self.DV(b))))
 
     def after(self, i):
         """`shared` after the first i columns were appended."""
-        return self.maxcol + self.d - self.SS(i) - i * self.d
+        return self.maxcol + self.d - self.SS(i) - self.DV(i)
 
     def room(self, m, j):
-        return self.maxcol + self.d - (self.SS(m) - self.SS(j)) - (m - j) * self.d
+        return self.maxcol + self.d - (self.SS(m) - self.SS(j)) - (self.DV(m) - self.DV(j))
 
     def KD(self, m):
         st = cur()
@@ -139,21 +212,10 @@ class Spec:
         st.assume(forall(0, k, lambda j: self.room(m, j) < 0))
         return k
 
-
-def colw_wf(s):
-    """Options as Columns.options() produces them: ('pack', None, b), ('given', g >= 0, b), ('weight', w >= 1, b)
-    with integer weights; bounds for the float-as-rational reading of the rounding idiom."""
-    n = n_items(s)
-
-    def ok(j):
-        w, (t, amt, b) = item_at(s, j)
-        return both(
-            implies(t == "pack", mk_bool(amt.isnone)),
-            implies(t == "given", both(neg(mk_bool(amt.isnone)), amt.val >= 0, amt.val < PARTMAX)),
-            implies(t == "weight", both(neg(mk_bool(amt.isnone)), amt.val >= 1, amt.val < WMAX)),
-        )
-
-    return both(pile_ri(s), forall(0, n, ok), n < NMAX, 0 <= s.dividechars, s.dividechars < PARTMAX, 0 <= s.min_width, s.min_width < MWMAX)
+    def KD_at(self, m, j):
+        """Ground instance at j of KD's definition (no column before KD(m) fits)."""
+        k = mk_int(_KD(self.zm, self.zf, V._z(m)))
+        cur().assume(implies(both(0 <= j, j < k), self.room(m, j) < 0))
 
 
 WIDTHS = ListOf(Int)
@@ -161,7 +223,15 @@ WEIGHTED = ListOf(Tup(Int, Int))
 COLW = Obj(_columns.Columns, dict(COLUMNS.fields, dividechars=Int, min_width=Int, _cache_column_widths=Opt(WIDTHS)))
 
 
-def weighted_is(S, wl, lo, hi):
+def all_in(label, lo, hi, body, at=()):
+    """Clause `for all j in [lo, hi): body(j)`; once it has been yielded (obliged or assumed, so it is part of the
+    path condition) its ground instances at the terms `at` are added as hints for the solver."""
+    yield label, forall(lo, hi, body)
+    for j in at:
+        cur().assume(implies(both(lo <= j, j < hi), body(j)))
+
+
+def weighted_is(S, wl, lo, hi, fwd_at=(), bwd_at=()):
     """`wl` lists exactly the weighted columns j with lo <= j < hi, in ascending order, as (weight, j)."""
     L = Q.seq_len(wl)
 
@@ -176,8 +246,8 @@ def weighted_is(S, wl, lo, hi):
         return both(lo <= j, j < hi, S.isw(j), S.NW(j) - S.NW(lo) == p, ival(e[0]) == S.amount(j))
 
     yield "weighted-count", L == S.NW(hi) - S.NW(lo)
-    yield "weighted-lists-every-kept-weighted-column", forall(lo, hi, fwd)
-    yield "weighted-lists-only-kept-weighted-columns", forall(0, L, bwd)
+    yield from all_in("weighted-lists-every-kept-weighted-column", lo, hi, fwd, fwd_at)
+    yield from all_in("weighted-lists-only-kept-weighted-columns", 0, L, bwd, bwd_at)
 
 
 def _spec_of(v):
@@ -211,11 +281,11 @@ def _loop1(v):
     S.mono(i + 1, m)
     yield "length-kept", Q.seq_len(ws) == m
     yield "dropped-are-zero", forall(0, i, lambda j: Q.seq_get(ws, j) == 0)
-    yield "rest-untouched", forall(i, m, lambda j: Q.seq_get(ws, j) == Q.seq_get(E, j))
+    yield from all_in("rest-untouched", i, m, lambda j: Q.seq_get(ws, j) == ival(Q.seq_get(E, j)), (i,))
     yield "sum-of-widths", ws.psum(m) == S.SS(m) - S.SS(i)
     yield "shared-is-the-room-left", v.shared == S.room(m, i)
     yield "dropped-did-not-fit", forall(0, i, lambda j: S.room(m, j) < 0)
-    yield from weighted_is(S, wl, i, m)
+    yield from weighted_is(S, wl, i, m, fwd_at=(i,), bwd_at=(0,))
 
 
 def _loop2(v):
@@ -232,24 +302,39 @@ def _loop2(v):
     mw = S.mw
     pos = lambda j: srt.sort_inv(S.NW(j) - S.NW(k))  # noqa: E731  position of weighted column j in the sorted order
     wsum = lambda q: Q.comp_psum(srt, 0, q)  # noqa: E731
+    inr = both(0 <= i, i < K)
+    p = srt.sort_perm(i)  # srt[i] = wl[p]
+    e = Q.seq_get(wl, p)
+    col, wgt = e[1], e[0]
     Q.comp_psum_unfold(srt, 0, i - 1)
     Q.comp_psum_unfold(srt, 0, i)
-    # lemma ascending-suffix-sum (below), instantiated at i: the weights from position i on are each >= the i-th
-    # (sorted() model: ascending), so their sum is >= (how many) * (the i-th)
-    st.assume(implies(both(0 <= i, i < K), wsum(K) - wsum(i) >= (K - i) * Q.seq_get(srt, i)[0]))
+    mul_unfold(mw, i - 1)
+    mul_unfold(mw, i)
+    mul_closed(mw, K)
+    mul_closed(mw, i)
+    # sorted() model, instance at i of "perm is a bijection of [0, K)"
+    st.assume(implies(inr, both(0 <= p, p < K, srt.sort_inv(p) == i)))
+    # lemma ascending-positive-suffix-sum (below), instantiated at i: the weights from position i on are each
+    # >= the i-th (sorted() model: ascending) and that one is >= 1, so their sum is >= (how many) * (the i-th), >= the i-th
+    suf = wsum(K) - wsum(i)
+    st.assume(implies(both(inr, wgt >= 1), both(suf >= (K - i) * wgt, suf >= wgt)))
     yield "length-kept", Q.seq_len(ws) == m
     yield "dropped-count", both(v.shared == S.room(m, k), v.shared >= 0, E.psum(m) == S.SS(m) - S.SS(k))
-    yield from weighted_is(S, wl, k, m)
+    yield from weighted_is(S, wl, k, m, bwd_at=(p,))
+    S.unfold(col)  # options of that column: its weight is >= 1
+    yield "next-column-is-a-kept-weighted-one", implies(inr, both(k <= col, col < m, S.isw(col), wgt == S.amount(col), wgt >= 1, pos(col) == i))
     yield "other-columns-untouched", forall(0, m, lambda j: implies(neg(both(k <= j, S.isw(j))), Q.seq_get(ws, j) == Q.seq_get(E, j)))
-    yield "pending-hold-min-width-done-at-least", forall(k, m, lambda j: implies(S.isw(j), ite(pos(j) >= i, Q.seq_get(ws, j) == mw, Q.seq_get(ws, j) >= mw)))
-    yield "suffix-weight", both(v.wtotal == wsum(K) - wsum(i), v.wtotal >= 0)
-    yield "enough-left-for-min-width-each", both(v.grow >= (K - i) * mw, v.grow >= 0)
+    yield from all_in("pending-hold-min-width-done-at-least", k, m, lambda j: implies(S.isw(j), ite(pos(j) >= i, Q.seq_get(ws, j) == mw, Q.seq_get(ws, j) >= mw)), (col,))
+    yield "nothing-handed-out-before-the-first", implies(i == 0, ws.psum(m) == E.psum(m))
+    yield "suffix-weight", v.wtotal == suf
+    yield "weight-left-positive-while-columns-are", both(implies(inr, v.wtotal >= wgt), implies(i == K, v.wtotal == 0))
+    yield "enough-left-for-min-width-each", both(v.grow >= MUL(mw, K) - MUL(mw, i), v.grow >= 0)
     yield "all-handed-out-with-the-last-weight", implies(both(i > 0, v.wtotal == 0), v.grow == 0)
-    yield "conservation", ws.psum(m) + v.grow + i * mw == E.psum(m) + v.shared + K * mw
+    yield "conservation", ws.psum(m) + v.grow + MUL(mw, i) == E.psum(m) + v.shared + MUL(mw, K)
     # the share just handed out is its weight's proportion of what was left, to within rounding, unless raised
     # to min_width (local form of the statement's proportionality clause)
-    e = Q.seq_get(srt, i - 1)
-    hp, r = e[0], Q.seq_get(ws, e[1])
+    e1 = Q.seq_get(srt, i - 1)
+    hp, r = e1[0], Q.seq_get(ws, e1[1])
     wp, gp = v.wtotal + hp, v.grow + r
     dd = 2 * wp * r - 2 * gp * hp
     yield "share-proportional-to-weight", implies(i > 0, both(r >= mw, -wp <= dd, either(dd <= wp, r == mw)))
@@ -258,11 +343,15 @@ def _loop2(v):
 def _post(S, m, rs, st_obj):
     k = S.KD(m)
     n, f, d, mw, maxcol = S.n, S.f, S.d, S.mw, S.maxcol
-    S.unfold(f)
-    S.unfold(m)
+    for j in (f, m, k):
+        S.unfold(j)
     S.mono(k, f)
     S.mono(f + 1, m)
-    S.mono(k, m)
+    S.mono(k + 1, m)
+    S.KD_at(m, f)
+    S.KD_at(m, 0)
+    mul_closed(d, m)
+    mul_closed(d, k)
     shown_w = S.NW(m) - S.NW(k)
     total = rs.psum(m) + d * (m - k - 1)
     yield "one-width-per-kept-column", m <= n
@@ -271,9 +360,10 @@ def _post(S, m, rs, st_obj):
     yield "kept-columns-right-of-the-focus-fitted", implies(m >= f + 2, S.after(m) >= 0)
     yield "widths-non-negative", forall(0, m, lambda j: Q.seq_get(rs, j) >= 0)
     yield "dropped-columns-are-a-zero-prefix", forall(0, k, lambda j: Q.seq_get(rs, j) == 0)
-    yield "given-and-pack-columns-get-their-own-size", forall(k, m, lambda j: implies(neg(S.isw(j)), Q.seq_get(rs, j) == S.own(j)))
-    yield "weighted-columns-get-at-least-min-width", forall(k, m, lambda j: implies(S.isw(j), Q.seq_get(rs, j) >= mw))
-    yield "focus-column-kept-iff-it-fits-alone", implies(n > 0, eq(k <= f, S.own(f) <= maxcol))
+    yield from all_in("given-and-pack-columns-get-their-own-size", k, m, lambda j: implies(neg(S.isw(j)), Q.seq_get(rs, j) == S.own(j)), (f,))
+    yield from all_in("weighted-columns-get-at-least-min-width", k, m, lambda j: implies(S.isw(j), Q.seq_get(rs, j) >= mw), (f,))
+    yield "focus-column-kept-if-it-fits-alone", implies(both(n > 0, S.own(f) <= maxcol), k <= f)
+    yield "focus-column-kept-only-if-it-fits-alone", implies(both(n > 0, k <= f), S.own(f) <= maxcol)
     yield "focus-column-gets-its-own-size-at-least", implies(both(n > 0, k <= f), Q.seq_get(rs, f) >= S.own(f))
     yield "nothing-shown-when-the-focus-column-does-not-fit", implies(both(n > 0, S.own(f) > maxcol), both(k == m, m == f + 1))
     yield "never-exceeds-maxcol-with-dividers", implies(k < m, total <= maxcol)
@@ -282,7 +372,7 @@ def _post(S, m, rs, st_obj):
     yield "cache-refreshed", both(neg(opt_isnone(st_obj._cache_maxcol)), ival(st_obj._cache_maxcol) == maxcol)
 
 
-@contract(CO + "Columns.column_widths", property="C19", inline=CINL, replayable=False, forall_range_check=False,
+@contract(CO + "Columns.column_widths", property="C19", inline=CINL, replayable=False, forall_range_check=False, ground_first=True, rounding_hints=True,
           notes="cold cache only (_cache_maxcol is None): the early return of a cached list is C06's matter; integer weights; "
                 "children answer pack()/sizing() per the Widget protocol")
 class columns_column_widths:
@@ -292,9 +382,13 @@ class columns_column_widths:
     self_shape = COLW
     params = dict(size=Tup(Int), focus=Bool)
     result = WIDTHS
+    static_checks = [_xcheck_sizing_and, _xcheck_sorted]
 
     def requires(s, a):
-        return both(colw_wf(s), 0 <= a.size[0], a.size[0] < DIMMAX, mk_bool(s._cache_maxcol.isnone))
+        import os
+
+        dev = both(forall(0, n_items(s), lambda j: neg(item_at(s, j)[1][0] == "pack"))) if os.environ.get("COLW_NOPACK") else True
+        return both(colw_wf(s), 0 <= a.size[0], a.size[0] < DIMMAX, mk_bool(s._cache_maxcol.isnone), dev)
 
     def ensures(old, s, a, result):
         S = Spec(old, a.size[0], a.focus)
@@ -312,17 +406,31 @@ class columns_column_widths:
         loops[int(_os.environ["COLW_DEV"])] = Loop(invariant=lambda v: False)
 
 
-@lemma("ascending-suffix-sum", property="C19")
+@lemma("ascending-positive-suffix-sum", property="C19")
 class ascending_suffix_sum:
-    """Induction (downwards on q) for: in an ascending sequence a[0..K) the sum of a[q..K) is >= (K - q) * a[q].
-    Base q = K - 1: the sum is a[K-1].  Step: suf(q) = a[q] + suf(q+1), hypothesis suf(q+1) >= (K-q-1) * a[q+1],
-    a[q] <= a[q+1]."""
+    """Induction (downwards on q) for: in an ascending sequence a[0..K) with a[q] >= 1 the sum suf(q) of a[q..K)
+    is >= (K - q) * a[q] and >= a[q].  Base q = K - 1: the sum is a[K-1].  Step: suf(q) = a[q] + suf(q+1), hypothesis
+    for q + 1 (a[q+1] >= a[q] >= 1)."""
 
     params = dict(K=Int, q=Int, aq=Int, aq1=Int, suf1=Int)
 
     def requires(x):
-        return both(0 <= x.q, x.q + 1 < x.K, x.aq <= x.aq1, x.suf1 >= (x.K - x.q - 1) * x.aq1)
+        return both(0 <= x.q, x.q + 1 < x.K, 1 <= x.aq, x.aq <= x.aq1, x.suf1 >= (x.K - x.q - 1) * x.aq1, x.suf1 >= x.aq1)
 
     def claim(x):
-        yield "base", x.aq >= (x.K - (x.K - 1)) * x.aq
-        yield "step", x.aq + x.suf1 >= (x.K - x.q) * x.aq
+        yield "base", both(x.aq >= (x.K - (x.K - 1)) * x.aq, x.aq >= x.aq)
+        yield "step", both(x.aq + x.suf1 >= (x.K - x.q) * x.aq, x.aq + x.suf1 >= x.aq)
+
+
+@lemma("repeated-addition-closed-form", property="C19")
+class repeated_addition_closed_form:
+    """Induction on k for MUL(x, k) = k * x where MUL(x, 0) = 0 and MUL(x, k+1) = MUL(x, k) + x."""
+
+    params = dict(x=Int, k=Int, mk=Int)
+
+    def requires(a):
+        return both(a.k >= 0, a.mk == a.k * a.x)
+
+    def claim(a):
+        yield "base", 0 == 0 * a.x
+        yield "step", a.mk + a.x == (a.k + 1) * a.x
